@@ -183,7 +183,7 @@ func (m *machine) pickNext(cur *gthread) *gthread {
 	k := 0
 	if len(cands) > 1 {
 		k = m.chooseN(len(cands), "schedule")
-		// chooseN recorded a "choose" nondet; turn it into a schedule record below
+		// chooseN recorded a nondet; turn it into a schedule record below
 		m.nondets = m.nondets[:len(m.nondets)-1]
 	}
 	if cur != nil && cands[0] == cur && k != 0 {
